@@ -75,6 +75,10 @@ def count_nondefault(obs, default) -> int:
 
 
 def run_case(case: Dict) -> CaseResult:
+    if case.get("layer") == "component":
+        from . import c02_components
+
+        return c02_components.run_case(case)
     res = CaseResult()
     d = Driver(case)
     if not d.build():
